@@ -573,7 +573,7 @@ func (d Driver) Run(c *core.Ctx) error {
 	var jobs []job
 	gen := func(n, nc int, mode, kinds, fam string, num, cubK int, mc bool, seedOff int64) {
 		jobs = append(jobs, job{mode, tlc.Opts{Module: "Bounds", Config: cfg(n, nc, mode, kinds, fam, num, cubK, mc), Seed: c.Seed + seedOff,
-			Workers: 3, HeapGB: 3, Timeout: 30 * time.Minute, Coverage: mc && c.Thorough() && mode == "curves"}})
+			Workers: 3, HeapGB: 3, Timeout: 30 * time.Minute}}) // no -coverage: the spec has the single action Emit (taken once per scenario) and coverage mode makes the recursive operators >50x slower
 	}
 	allFam := "{1,2,3,4,5,6,7,8,9,10,11,12,13,14,15,16}" // Bounds!XFams: 13-16 = rotated ellipses with eight lattice points
 	small := "{1,2,3,4,5,10,11}"                           // CurveGen families that fit the lattice 0..10
@@ -589,6 +589,8 @@ func (d Driver) Run(c *core.Ctx) error {
 		gen(6, 1, "cubics", `{"C"}`, "{1}", 60000, 7, false, 1)
 		gen(10, 1, "cubics", `{"C"}`, "{1}", 60000, 7, false, 2)
 		gen(3, 1, "cubics", `{"C"}`, "{1}", 30000, 7, false, 3)
+		gen(8, 1, "cubics", `{"C"}`, "{1}", 60000, 7, false, 13)
+		gen(4, 1, "cubics", `{"C"}`, "{1}", 60000, 7, false, 14)
 		gen(6, 1, "cubics", `{"C"}`, "{1}", 4000, 7, true, 4)
 		gen(10, 2, "curves", all, small, 1500, 7, true, 5)
 		gen(10, 2, "curves", all, small, 25000, 7, false, 6)
